@@ -148,8 +148,14 @@ def run_case(ctx, g, rng):
     elif which == 4:
         ctxd = {}
         shapes = set()
-        for k in rng.sample(P + ["@vocab", "@base", "@language"], k=rng.randint(0, 6)):
+        keys = rng.sample(P + ["@vocab", "@base", "@language"], k=rng.randint(0, 6))
+        for k in keys:
             u = rng.choice(U)
+            if rng.random() < 0.25:
+                # a value that looks like a compact IRI of another term of the same context: still taken literally
+                other = rng.choice([x for x in keys if x and not x.startswith("@")] or ["a"])
+                u = other + ":" + rng.choice(["", "x_", "CHEBI_", "/y"])
+                shapes.add("compact-looking-value")
             v, sh = rng.choice([
                 (u, "str"), ({"@id": u, "@prefix": True}, "prefix-dict"), ({"@id": u}, "id-only"),
                 ({"@id": u, "@prefix": False}, "prefix-false"), (5, "int"), (None, "null"), (["x"], "list"),
